@@ -529,8 +529,23 @@ def trace(body, op, passthrough_extra=(), through_calls=True, _depth=0, _tr=None
         # the nearest projection still pending on the value, looking back over plain moves (and hops
         # into callers, which do not change the value)
         k_ = len(st) - 1
-        while k_ >= 0 and st[k_][0] in ("use", "enter_caller"):
-            k_ -= 1
+        open_refs = 0
+        while k_ >= 0:
+            kind_ = st[k_][0]
+            if kind_ in ("use", "enter_caller", "enter_callee"):
+                k_ -= 1
+            elif kind_ == "ref":
+                # `&x` taken closer to the origin ...
+                open_refs += 1
+                k_ -= 1
+            elif kind_ == "deref" and open_refs > 0:
+                # ... and dereferenced again closer to the use: the pair cancels
+                open_refs -= 1
+                k_ -= 1
+            else:
+                break
+        if open_refs:
+            k_ = -1
         name = None
         cut = None
         if k_ >= 0 and st[k_][0] == "field":
@@ -933,6 +948,23 @@ class Super:
 # --------------------------------------------------------------------------- path-sensitive reachability
 
 
+def _err_ty(ty):
+    """E of `Result<_, E>` (last top-level generic argument), or None."""
+    if not ty.startswith("std::result::Result<"):
+        return None
+    inner = ty[len("std::result::Result<"):-1]
+    depth = 0
+    cut = None
+    for i_, ch in enumerate(inner):
+        if ch in "<([":
+            depth += 1
+        elif ch in ">)]":
+            depth -= 1
+        elif ch == "," and depth == 0:
+            cut = i_
+    return inner[cut + 1:].strip() if cut is not None else None
+
+
 def _try_kind(f):
     """'result' / 'option' / 'controlflow' for Try::branch / from_residual callee by its Self type."""
     st = f.get("self_ty", "")
@@ -990,44 +1022,69 @@ class PathSens:
     def _pk(key):
         return (key[0], key[1], "p")
 
+    @staticmethod
+    def _ppk(key):
+        return (key[0], key[1], "pp")
+
     def _clear(self, facts, key):
         facts.pop(key, None)
         facts.pop(self._pk(key), None)
+        facts.pop(self._ppk(key), None)
+
+    def _deref(self, facts, key):
+        """Follow shared-reference links: the key whose facts describe what `key` points to."""
+        for _ in range(4):
+            f = facts.get(key)
+            if f and f[0] == "ref_of":
+                key = f[1]
+            else:
+                break
+        return key
 
     def _operand_fact(self, facts, path, op):
-        """(fact, payload_fact) of an operand, or (None, None)."""
+        """(fact, payload_fact, payload_of_payload_fact) of an operand; unknown parts are None."""
         if op.get("k") == "const":
             v = op.get("v")
             if isinstance(v, (bool, int)):
-                return ("const", int(v)), None
-            return None, None
+                return ("const", int(v)), None, None
+            return None, None, None
         if is_place(op):
-            pr = op["p"]["pr"]
+            pr = [e for e in op["p"]["pr"]]
             src = (path, op["p"]["l"])
+            # look through shared references: `(*r)` where r = &x
+            while pr and pr[0]["k"] == "deref":
+                tgt = self._deref(facts, src)
+                if tgt == src:
+                    return None, None, None
+                src = tgt
+                pr = pr[1:]
             if not pr:
                 f = facts.get(src)
-                if f and f[0] != "discr_of":
-                    return f, facts.get(self._pk(src))
-                return None, facts.get(self._pk(src)) if f is None else None
+                if f and f[0] not in ("discr_of",):
+                    return f, facts.get(self._pk(src)), facts.get(self._ppk(src))
+                return None, None, None
             # `(Y as V).0`: the payload of a value whose variant is known to be V
             if len(pr) == 2 and pr[0]["k"] == "downcast" and pr[1]["k"] == "field" and pr[1].get("i", 0) == 0:
                 f = facts.get(src)
                 if f and f[0] == "var" and f[1] == pr[0]["idx"]:
-                    return facts.get(self._pk(src)), None
-        return None, None
+                    return facts.get(self._pk(src)), facts.get(self._ppk(src)), None
+        return None, None, None
 
     def _set_from_operand(self, facts, key, path, op):
-        f, pf = self._operand_fact(facts, path, op)
+        f, pf, ppf = self._operand_fact(facts, path, op)
         # a moved-from local is dead: forgetting its facts keeps the state space small
         if op.get("k") == "move" and is_place(op) and not op["p"]["pr"] and (path, op["p"]["l"]) != key:
             src = (path, op["p"]["l"])
-            if not any(v[0] == "discr_of" and v[1] == src for v in facts.values()):
+            if not any(v[0] in ("discr_of", "ref_of") and v[1] == src for v in facts.values()):
                 self._clear(facts, src)
         self._clear(facts, key)
         if f is not None:
             facts[key] = f
-        if pf is not None and self.payloads:
-            facts[self._pk(key)] = pf
+        if self.payloads:
+            if pf is not None:
+                facts[self._pk(key)] = pf
+            if ppf is not None:
+                facts[self._ppk(key)] = ppf
 
     def _stmt(self, facts, path, s):
         if s["k"] == "setdiscr":
@@ -1047,13 +1104,15 @@ class PathSens:
             return
         k = rv["k"]
         if k == "aggregate" and rv["agg"] == "adt":
-            pf = None
+            pf = ppf = None
             if len(rv["ops"]) == 1:
-                pf, _ = self._operand_fact(facts, path, rv["ops"][0])
+                pf, ppf, _ = self._operand_fact(facts, path, rv["ops"][0])
             self._clear(facts, key)
             facts[key] = ("var", rv["variant_idx"])
             if pf is not None and pf[0] in ("var", "const") and self.payloads:
                 facts[self._pk(key)] = pf
+                if ppf is not None:
+                    facts[self._ppk(key)] = ppf
         elif k == "use":
             self._set_from_operand(facts, key, path, rv["op"])
         elif k == "discr":
@@ -1068,12 +1127,27 @@ class PathSens:
                 else:
                     facts[key] = ("discr_of", skey)
             else:
-                f, _ = self._operand_fact(facts, path, {"k": "copy", "p": sp})
+                f, _, _ = self._operand_fact(facts, path, {"k": "copy", "p": sp})
                 if f and f[0] == "var":
                     facts[key] = ("const", f[1])
         elif k == "ref" and rv.get("mut") and not rv["p"]["pr"]:
             self._clear(facts, (path, rv["p"]["l"]))
             self._clear(facts, key)
+        elif k == "ref" and not rv.get("mut") and self.payloads:
+            # shared borrow: remember what it points to (`match *self` in a `&self` method)
+            self._clear(facts, key)
+            tp = rv["p"]
+            tgt = (path, tp["l"])
+            pr = list(tp["pr"])
+            while pr and pr[0]["k"] == "deref":
+                t2 = self._deref(facts, tgt)
+                if t2 == tgt:
+                    tgt = None
+                    break
+                tgt = t2
+                pr = pr[1:]
+            if tgt is not None and not pr and tgt != key:
+                facts[key] = ("ref_of", tgt)
         else:
             self._clear(facts, key)
 
@@ -1177,13 +1251,13 @@ class PathSens:
                     if f["def"].rsplit("::", 1)[-1] in ("map_err", "map") and not f["def"].startswith("core::bool") and "bool" not in f["def"]:
                         f2[dkey] = ("var", recv)
                 if f and not dest["pr"] and f["def"] in ("core::bool::<impl bool>::then_some", "std::bool::<impl bool>::then_some", "core::bool::<impl bool>::then", "std::bool::<impl bool>::then") and t["args"]:
-                    cf_, _ = self._operand_fact(facts, path, t["args"][0])
+                    cf_ = self._operand_fact(facts, path, t["args"][0])[0]
                     if cf_ and cf_[0] == "const":
                         if cf_[1] == 0:
                             f2[dkey] = ("var", 0)
                         elif f["def"].endswith("then_some"):
                             f2[dkey] = ("var", 1)
-                            pf_, _ = self._operand_fact(facts, path, t["args"][1]) if len(t["args"]) > 1 else (None, None)
+                            pf_ = self._operand_fact(facts, path, t["args"][1])[0] if len(t["args"]) > 1 else None
                             if pf_ is not None and pf_[0] in ("var", "const") and self.payloads:
                                 f2[self._pk(dkey)] = pf_
                 if f and not dest["pr"]:
@@ -1194,8 +1268,16 @@ class PathSens:
                         if is_place(a) and not a["p"]["pr"]:
                             af = facts.get((path, a["p"]["l"]))
                             if af and af[0] == "var" and kind:
+                                apf = facts.get(self._pk((path, a["p"]["l"])))
                                 if kind == "result":
                                     f2[dkey] = ("var", 0 if af[1] == 0 else 1)
+                                    if self.payloads:
+                                        if af[1] == 0 and apf is not None:
+                                            f2[self._pk(dkey)] = apf  # Continue(payload)
+                                        elif af[1] == 1:
+                                            f2[self._pk(dkey)] = ("var", 1)  # Break(Err(..))
+                                            if apf is not None:
+                                                f2[self._ppk(dkey)] = apf
                                 elif kind == "option":
                                     f2[dkey] = ("var", 1 if af[1] == 0 else 0)
                                 elif kind == "controlflow":
@@ -1204,8 +1286,31 @@ class PathSens:
                         kind = _try_kind(f)
                         if kind == "result":
                             f2[dkey] = ("var", 1)
+                            # `?` between equal error types keeps the error value (From<T> for T is the identity)
+                            if self.payloads and t["args"] and is_place(t["args"][0]) and not t["args"][0]["p"]["pr"]:
+                                ak = (path, t["args"][0]["p"]["l"])
+                                et_a = _err_ty(body.local_ty(ak[1]))
+                                et_d = _err_ty(body.local_ty(dest["l"]))
+                                apf = facts.get(self._pk(ak))
+                                if et_a and et_a == et_d and apf is not None:
+                                    f2[self._pk(dkey)] = apf
                         elif kind == "option":
                             f2[dkey] = ("var", 0)
+                    elif d == "std::result::Result::<T, E>::map_err" and self.payloads and len(t["args"]) == 2 and t["args"][1].get("k") == "fn" and recv in (1, None):
+                        # `.map_err(Enum::Variant)`: the error becomes that variant. With an unknown
+                        # receiver the two outcomes are explored separately (case split).
+                        cdef = t["args"][1].get("def", "")
+                        epath, _, vname = cdef.rpartition("::")
+                        e_adt = body.crate.adts.get(epath)
+                        if e_adt and e_adt["kind"] == "enum":
+                            vi = [v_["idx"] for v_ in e_adt["variants"] if v_["name"] == vname]
+                            if vi:
+                                if recv is None:
+                                    f_ok = dict(f2)
+                                    f_ok[dkey] = ("var", 0)
+                                    out.append((lab, succ, f_ok))
+                                f2[dkey] = ("var", 1)
+                                f2[self._pk(dkey)] = ("var", vi[0])
                 # a &mut borrow passed to an opaque call may change the referent: handled at ref creation
                 out.append((lab, succ, f2))
             return out
@@ -1298,7 +1403,7 @@ class PathSens:
         """Forget facts about locals of the current frame that are dead at the start of `node`."""
         path, bb = node
         live = self.sup.body_of(node).live_in().get(bb, frozenset())
-        linked = {v[1] for v in facts.values() if v[0] == "discr_of"}
+        linked = {v[1] for v in facts.values() if v[0] in ("discr_of", "ref_of")}
         out = {}
         for k, v in facts.items():
             if k[0] == path and k[1] not in live and (k[0], k[1]) not in linked:
@@ -1345,10 +1450,10 @@ class PathSens:
         return node not in self.reach(removed_edges=[(src, label, dst)])
 
 
-def strace(sup, node, op, extra=()):
+def strace(sup, node, op, extra=(), _tr=None):
     """Trace `op` (as read in the block `node` of a Super graph) back to its origin, continuing in
     the caller whenever the origin is an argument of an inlined callee."""
-    tr = trace(sup.body_of(node), op, extra)
+    tr = trace(sup.body_of(node), op, extra, _tr=_tr)
     cur = node
     guard = 0
     while tr.origin and tr.origin[0] == "arg" and cur[0] and guard < 10:
@@ -1364,13 +1469,15 @@ def strace(sup, node, op, extra=()):
     return tr
 
 
-def strace_deep(sup, node, op, extra=(), max_hops=6):
+def strace_deep(sup, node, op, extra=(), max_hops=6, stop_at=()):
     """Like strace, but when the origin is the result of a call that the supergraph inlines (a same-crate
     helper, or a closure invoked through FnOnce/FnMut/Fn::call*), continue with the callee's return value,
     and from there back out through its parameters / captured variables as strace does."""
     tr = strace(sup, node, op, extra)
     hops = 0
     while tr.origin and tr.origin[0] == "call" and hops < max_hops:
+        if any(tr.origin[2] is x for x in stop_at):
+            break
         hops += 1
         cnode = (tr.origin_node[0], tr.origin[1])
         inl = [m for lab, m in sup.edges(cnode) if lab == "call"]
@@ -1382,13 +1489,17 @@ def strace_deep(sup, node, op, extra=(), max_hops=6):
         if not rets:
             break
         rnode = (callee_entry[0], rets[0])
-        t2 = strace(sup, rnode, {"k": "copy", "p": {"l": 0, "pr": []}}, extra)
-        if not t2.origin or (t2.origin[0] == "call" and t2.origin_node == rnode and t2.origin[2] is tr.origin[2]):
-            break
+        prev_origin = tr.origin
+        saved = list(tr.steps)
         tr.steps.append(("enter_callee", callee.id))
-        tr.steps.extend(t2.steps)
-        tr.origin = t2.origin
-        tr.origin_node = t2.origin_node
+        tr.origin = None
+        # the same Trace object keeps the projections still pending on the value (`session.translator`
+        # resolves against the struct literal inside the constructor)
+        strace(sup, rnode, {"k": "copy", "p": {"l": 0, "pr": []}}, extra, _tr=tr)
+        if not tr.origin or (tr.origin[0] == "call" and tr.origin[2] is prev_origin[2]):
+            tr.steps[:] = saved
+            tr.origin = prev_origin
+            break
     return tr
 
 
